@@ -253,6 +253,50 @@ def insub_variant(rng, sc: Scenario) -> Scenario:
     return dataclasses.replace(sc, **kw)
 
 
+def reconf_variant(rng, sc: Scenario) -> Scenario:
+    """Round 5 (model-compared: lean/JoblibModel/ParallelReconf.lean): ONE Parallel object whose configuration changes BETWEEN
+    calls through the public surface - `p.n_jobs` (and the worker count the backend answers: an elastic backend), `p.pre_dispatch`
+    (often the SAME expression text evaluated with another n_jobs), `p.batch_size`, `p.timeout`.  Every oracle judges a call
+    with the configuration of THAT call."""
+    import dataclasses
+    base = sc if sc.nj >= 2 else dataclasses.replace(sc, nj=2)
+    calls = [dataclasses.replace(c, cons=tuple(o for o in c.cons)) for c in base.calls]
+    while len(calls) < 2 or (len(calls) < 4 and rng.random() < 0.3):
+        calls.append(Call(rng.choice([3, 9, 20, 30]), cons=(() if base.ra == 0 else tuple(rng.choice([1, 5]) for _ in range(rng.choice([0, 2]))))))
+    same_expr = rng.choice([e for e in EXPRS if e != "0*n_jobs"]) if rng.random() < 0.7 else None
+    shrink = rng.random() < 0.5
+    njs = sorted((rng.choice([2, 3, 4, 8]) for _ in calls), reverse=True) if shrink else [rng.choice([2, 2, 3, 4, 8]) for _ in calls]
+    out = []
+    for i, c in enumerate(calls):
+        nj = njs[i]
+        r = rng.random()
+        if same_expr is not None and r < 0.8:
+            pd_mode, expr = 2, same_expr
+        elif r < 0.5:
+            pd_mode, expr = 2, rng.choice([e for e in EXPRS if e != "0*n_jobs"])
+        elif r < 0.6:
+            pd_mode, expr = 1, ""
+        else:
+            pd_mode, expr = 0, ""
+        pd = _eval_pd(expr, nj) if pd_mode == 2 else (0 if pd_mode == 1 else rng.choice([1, 2, nj, 2 * nj, 3, 5]))
+        if pd_mode == 2 and pd < 1:
+            pd_mode, expr, pd = 0, "", 1
+        if rng.random() < 0.5:
+            auto, bs = base.bs_auto, base.bs
+        elif rng.random() < 0.5:
+            auto, bs = True, tuple(rng.choice([1, 1, 2, 3]) for _ in range(rng.randint(1, 4)))
+        else:
+            auto, bs = False, (rng.choice([1, 1, 2, 3]),)
+        to = base.timeout if rng.random() < 0.7 else rng.choice([-1, -1, 1, 3, 5])
+        n = c.n
+        if i >= 1 and rng.random() < 0.6:
+            n = rng.choice([2 * njs[0] + 3, 20, 30, 40])  # more tasks than the look-ahead of any earlier configuration
+        fail = tuple(f for f in c.fail if f < n)
+        out.append(dataclasses.replace(c, n=n, fail=fail, iterfail=(c.iterfail if c.iterfail <= n else -1),
+                                       reconf=(nj, auto, tuple(bs), pd_mode, pd, expr, to)))
+    return dataclasses.replace(base, calls=tuple(out), instr=(), midpull_close=(), probe_wait=False, reenter="", warn_error=False)
+
+
 def real_ab_variant(rng, sc: Scenario) -> Scenario:
     """Round 5 (oracle-only): the batch sizes are not scripted but computed by the REAL `AutoBatchingMixin` attached to the real
     `Parallel` object (it can read `n_tasks`, `n_dispatched_tasks`, the number of workers ...), over SEVERAL calls of one object —
@@ -385,6 +429,8 @@ def oracle(sc: Scenario, run: ctl.Run, props):
     per_call = dict(split_calls(log))
     bmax = max(sc.bs)
     for cno, call in enumerate(sc.calls):
+        scc = sc.for_call(cno)  # the configuration in force during THIS call (per-call `reconf`)
+        bmax = max(scc.bs)
         evs = per_call.get(cno, [])
         n_bad_before = len(bad)
         ids = list(range(base, base + call.n))
@@ -405,7 +451,7 @@ def oracle(sc: Scenario, run: ctl.Run, props):
         # itself; n_jobs == 1: start_call / pre_dispatch / islice are not used; `iter` may never be reached if the consumer
         # closes the generator first)
         fault_sure = bool(call.fault) and (call.fault in (1, 3) or (call.fault == 2 and "configure" in evs)
-                                           or (sc.nj > 1 and call.fault in (4, 5, 6, 7)))
+                                           or (scc.nj > 1 and call.fault in (4, 5, 6, 7)))
         clean = not failing and iterfail_id is None and (fname is None or raised != fname) and not fault_sure
         # was the call cut short by the consumer?
         cut = final in ("closed", "dropped") or 6 in call.cons or "exit" in evs
@@ -425,14 +471,14 @@ def oracle(sc: Scenario, run: ctl.Run, props):
             bad.append(("C16", "reusable-after-abandon:RuntimeError", cno))
             bad.append(("C04", "reusable-after-failure:RuntimeError", cno))
             continue
-        timeouts_possible = sc.timeout >= 0
+        timeouts_possible = scc.timeout >= 0
         abandoned_block = 6 in call.cons or "exit" in evs  # the consumer left the with-block with the generator alive
         if fname is not None and raised == fname:
             # ---- C04 / F52: a call that failed while starting up
             if any(e.startswith(("pull", "submit", "exec", "complete")) and
                    (e.startswith("pull-raise") or set(ids_of(e)) & set(ids)) for e in evs):
                 bad.append(("C04", "failed-start:tasks-dispatched", dict(call=cno, fault=call.fault)))
-            if sc.nj > 1 or call.fault == 3:
+            if scc.nj > 1 or call.fault == 3:
                 if "start_call" in evs and call.fault != 4 and "stop_call" not in evs[evs.index("start_call"):]:
                     bad.append(("C04", "failed-start:backend-call-left-open", dict(call=cno, fault=call.fault)))
                 if "configure" in evs and call.fault != 2 and "terminate" not in evs[evs.index("configure"):]:
@@ -446,7 +492,7 @@ def oracle(sc: Scenario, run: ctl.Run, props):
             may_fail = [f for f in failing if f in effective]
             if may_fail or iterfail_id is not None:
                 sig = "failure-not-surfaced"
-                if sc.pd_mode != 1 and sc.pd == 0:
+                if scc.pd_mode != 1 and scc.pd == 0:
                     sig = "pre_dispatch-zero-drops-tasks"
                 elif iterfail_id is not None and not any(run.exec_count.get(f) for f in may_fail):
                     sig = "iterator-error-swallowed"
@@ -458,7 +504,7 @@ def oracle(sc: Scenario, run: ctl.Run, props):
                     okv = got == ids
                 if not okv:
                     sig = "wrong-results"
-                    if sc.pd_mode != 1 and sc.pd == 0 and not got:
+                    if scc.pd_mode != 1 and scc.pd == 0 and not got:
                         sig = "pre_dispatch-zero-drops-tasks"
                     bad.append(("C01", pre + sig, dict(call=cno, got=got, want=ids)))
                 for t in ids:
@@ -483,7 +529,7 @@ def oracle(sc: Scenario, run: ctl.Run, props):
             # partial results delivered before the failure must still be right (generator modes)
         if sc.ra == 1 and yields != ids[: len(yields)]:
             bad.append(("C16", "ordered-generator-out-of-order", dict(call=cno, yields=yields)))
-        if sc.ra == 2 and sc.nj > 1:
+        if sc.ra == 2 and scc.nj > 1:
             # completion order, each exactly once
             comp = []
             for e in evs:
@@ -495,14 +541,14 @@ def oracle(sc: Scenario, run: ctl.Run, props):
             if ci != yields and raised is None and not recalled_ok:
                 bad.append(("C16", "unordered-not-completion-order", dict(call=cno, yields=yields, completions=comp)))
         # ---- C04 timeout: no completion at all for more than `timeout` ticks while the caller waits for a batch of this call
-        if sc.timeout >= 0 and run.max_idle_with_parked.get(cno, 0) >= sc.timeout + 2 and raised is None and not cut:
-            bad.append(("C04", "timeout-not-raised", dict(call=cno, idle_ticks=run.max_idle_with_parked.get(cno), timeout=sc.timeout)))
+        if scc.timeout >= 0 and run.max_idle_with_parked.get(cno, 0) >= scc.timeout + 2 and raised is None and not cut:
+            bad.append(("C04", "timeout-not-raised", dict(call=cno, idle_ticks=run.max_idle_with_parked.get(cno), timeout=scc.timeout)))
         # ---- C04 timeout, the converse: TimeoutError only when the caller really waited longer than `timeout` for ONE result
         # (ordered modes: the batch at the head of the queue; the fake clock advances by one tick per sleep of the retrieval loop)
-        if (raised == "TimeoutError" and sc.timeout >= 0 and sc.ra in (0, 1) and sc.nj > 1
-                and run.max_wait_same_head.get(cno, 0) < sc.timeout):
+        if (raised == "TimeoutError" and scc.timeout >= 0 and sc.ra in (0, 1) and scc.nj > 1
+                and run.max_wait_same_head.get(cno, 0) < scc.timeout):
             bad.append(("C04", "timeout-raised-without-waiting-that-long-for-one-result",
-                        dict(call=cno, timeout=sc.timeout, longest_wait_for_one_result=run.max_wait_same_head.get(cno, 0))))
+                        dict(call=cno, timeout=scc.timeout, longest_wait_for_one_result=run.max_wait_same_head.get(cno, 0))))
         # ---- C01: what the caller would have seen had it evaluated its wait predicate in the middle of a callback
         if clean and not cut:
             idset = set(ids)
@@ -515,7 +561,7 @@ def oracle(sc: Scenario, run: ctl.Run, props):
                                 dict(call=cno, at=f"{where}+{off}", tasks_still_to_run=len(later))))
                     break
         # ---- C09 look-ahead
-        if sc.nj == 1:
+        if scc.nj == 1:
             # sequential path: lazy — items taken exceed tasks executed by at most one (re-)batch
             pulled = executed = 0
             over = False
@@ -534,7 +580,7 @@ def oracle(sc: Scenario, run: ctl.Run, props):
                 if pulled - executed > bmax:
                     bad.append(("C09", "sequential-lookahead-exceeds-batch", dict(call=cno, pulled=pulled, executed=executed)))
                     break
-        elif sc.pd_mode == 1:
+        elif scc.pd_mode == 1:
             first_out = next((i for i, e in enumerate(evs) if e.startswith(("yield", "ret", "stop"))), len(evs))
             for i, e in enumerate(evs):
                 if e.startswith("pull") and (" @cb" in e or i > first_out):
@@ -591,8 +637,8 @@ def oracle(sc: Scenario, run: ctl.Run, props):
             n_start_batches = sum(1 for e in evs if e.startswith("submit") and " @cb" not in e)
             if c_during_start == 0 and n_start_batches and max_parked > n_start_batches:
                 bad.append(("C09", "in-flight-exceeds-predispatched", dict(call=cno, max_in_flight=max_parked, predispatched=n_start_batches)))
-            strict = (sc.pd + sc.nj) * bmax
-            partial = sc.pd + sc.nj * bmax * (1 + c_during_start) + sc.nj * bmax
+            strict = (scc.pd + scc.nj) * bmax
+            partial = scc.pd + scc.nj * bmax * (1 + c_during_start) + scc.nj * bmax
             if max_la > strict:
                 if c_during_start > 0 and max_la <= max(partial, strict):
                     bad.append(("C09", "lookahead-grows-with-completions-during-predispatch",
@@ -745,6 +791,11 @@ def explore(ctx, props, n, salt, focus=None, scenarios=None, driver_prop=None):
                 sc = oracle_only_variant(rng, sc)
             scs.append(sc)
         import os
+        if not os.environ.get("VERIF_M1_NO_ROUND5"):
+            # round 5: the configuration of the object changes between calls (model-compared), own stream
+            rngc = ctx.rng(f"{salt}/reconf")
+            for _ in range(max(1, n // 12)):
+                scs.append(reconf_variant(rngc, gen_scenario(rngc, focus, big=ctx.thorough)))
         if "C01" in props and not os.environ.get("VERIF_M1_NO_ROUND5"):
             # round 5: two more oracle-only scenario kinds, drawn from their own stream (the scenarios above are unchanged)
             rng5 = ctx.rng(f"{salt}/round5")
@@ -785,6 +836,10 @@ def explore(ctx, props, n, salt, focus=None, scenarios=None, driver_prop=None):
         res.count("pd=" + ("all" if sc.pd_mode == 1 else "expr" if sc.pd_mode == 2 else "int"))
         res.count("calls=%d" % len(sc.calls))
         res.count("bs=" + ("auto" if sc.bs_auto else "fixed"))
+        if sc.has_reconf():
+            res.count("reconfigured-between-calls-scenarios")
+            if len({c.reconf[0] for c in sc.calls}) > 1:
+                res.count("reconfigured:n_jobs-changes")
         for c_ in sc.calls:
             if c_.fault:
                 res.count("startup-fault=%d" % c_.fault)
